@@ -275,6 +275,9 @@ func runC17(c *hx.Ctx) {
 	msg := zipToLowerPreimage()
 	c.Check("tolower-preimage", msg == "", "", zipIn{Op: "tolower"}, msg)
 	zipPathCases(c, c.N(2500))
+	for _, files := range zipCorpusLists() {
+		c17List(c, files, "corpus")
+	}
 
 	for i := 0; i < c.N(3500); i++ {
 		var files []gen.ZipFileSpec
@@ -300,65 +303,74 @@ func runC17(c *hx.Ctx) {
 		}
 	}
 
+	for _, ct := range zipCorpusTrees() {
+		c17Tree(c, sc, ct.Tree, true, module.Version{Path: "example.com/m", Version: "v1.2.3"}, ct.Spell)
+	}
 	for i := 0; i < c.N(1000); i++ {
 		plain := r.Intn(5) < 3
 		t := gen.ZipModuleTree(r, plain)
-		d := sc.next()
-		root := filepath.Join(d, "root")
-		if err := os.Mkdir(root, 0o755); err != nil {
-			panic(err)
-		}
-		if err := gen.ZipMaterializeTree(root, t); err != nil {
-			panic(err)
-		}
 		m := gen.ZipModuleVersion(r)
 		spell := 0
 		if r.Intn(2) == 0 {
 			spell = r.Intn(c17Spellings)
 		}
-		c.Count(fmt.Sprintf("dir-spelling:%d", spell))
-		c17Spell(d, spell, func(dir string) {
-			var cf modzip.CheckedFiles
-			var err error
-			var res wire.Val
-			if p, _ := hx.Guard(func() { cf, err = modzip.CheckDir(dir) }); p {
-				res = wire.Panic()
-			} else {
-				res = zipReportVal(cf, err)
-			}
-			c.Case("zip.CheckDir", wire.L(wire.S(dir), zipTreeVal(t)), res)
-			for _, fe := range cf.Omitted {
-				c.Count("dir:omitted:" + zipFileErrKind(fe.Err))
-			}
-			var buf bytes.Buffer
-			var cerr error
-			if p, _ := hx.Guard(func() { cerr = modzip.CreateFromDir(&buf, m, dir) }); p {
-				res = wire.Panic()
-			} else {
-				res = zipCreateResultVal(buf.Bytes(), cerr)
-			}
-			c.Case("zip.CreateFromDir", wire.L(wire.S(m.Path), wire.S(m.Version), zipTreeVal(t)), res)
-			if cerr == nil {
-				c.Count("trees:create-ok")
-			} else {
-				c.Count("trees:create-" + zipTopErrClass(cerr))
-			}
-			if plain {
-				// the decidable side condition of the Coq theorem dir_vs_list_agree_partial holds
-				// for this tree: evaluated by the model (the implementation has nothing to say)
-				c.Case("zip.DirListCondition", zipTreeVal(t), wire.Bool(true))
-				msg := c17TreeOracle(dir, t, m)
-				c.Check("dir-vs-list", msg == "", "", zipIn{Op: "tree", Tree: zipJsTree(t), ModPath: m.Path, ModVersion: m.Version, TargetKind: spell}, msg)
-				c.Count("trees:plain")
-				if len(cf.Valid) > 0 && len(cf.Omitted) > 0 {
-					c.Nontrivial(zipTreeVal(t).String())
-				}
-			} else {
-				c.Count("trees:with-links-or-vcs")
-			}
-		})
-		zipRemoveAll(d)
+		c17Tree(c, sc, t, plain, m, spell)
 	}
+}
+
+// c17Tree materialises the tree, runs CheckDir and CreateFromDir on it under the given spelling
+// of the directory, records the correspondence cases and (for plain trees) the dir-vs-list oracle.
+func c17Tree(c *hx.Ctx, sc *zipScratch, t []*gen.ZipTreeNode, plain bool, m module.Version, spell int) {
+	d := sc.next()
+	root := filepath.Join(d, "root")
+	if err := os.Mkdir(root, 0o755); err != nil {
+		panic(err)
+	}
+	if err := gen.ZipMaterializeTree(root, t); err != nil {
+		panic(err)
+	}
+	c.Count(fmt.Sprintf("dir-spelling:%d", spell))
+	c17Spell(d, spell, func(dir string) {
+		var cf modzip.CheckedFiles
+		var err error
+		var res wire.Val
+		if p, _ := hx.Guard(func() { cf, err = modzip.CheckDir(dir) }); p {
+			res = wire.Panic()
+		} else {
+			res = zipReportVal(cf, err)
+		}
+		c.Case("zip.CheckDir", wire.L(wire.S(dir), zipTreeVal(t)), res)
+		for _, fe := range cf.Omitted {
+			c.Count("dir:omitted:" + zipFileErrKind(fe.Err))
+		}
+		var buf bytes.Buffer
+		var cerr error
+		if p, _ := hx.Guard(func() { cerr = modzip.CreateFromDir(&buf, m, dir) }); p {
+			res = wire.Panic()
+		} else {
+			res = zipCreateResultVal(buf.Bytes(), cerr)
+		}
+		c.Case("zip.CreateFromDir", wire.L(wire.S(m.Path), wire.S(m.Version), zipTreeVal(t)), res)
+		if cerr == nil {
+			c.Count("trees:create-ok")
+		} else {
+			c.Count("trees:create-" + zipTopErrClass(cerr))
+		}
+		if plain {
+			// the decidable side condition of the Coq theorem dir_vs_list_agree_partial holds
+			// for this tree: evaluated by the model (the implementation has nothing to say)
+			c.Case("zip.DirListCondition", zipTreeVal(t), wire.Bool(true))
+			msg := c17TreeOracle(dir, t, m)
+			c.Check("dir-vs-list", msg == "", "", zipIn{Op: "tree", Tree: zipJsTree(t), ModPath: m.Path, ModVersion: m.Version, TargetKind: spell}, msg)
+			c.Count("trees:plain")
+			if len(cf.Valid) > 0 && len(cf.Omitted) > 0 {
+				c.Nontrivial(zipTreeVal(t).String())
+			}
+		} else {
+			c.Count("trees:with-links-or-vcs")
+		}
+	})
+	zipRemoveAll(d)
 }
 
 func replayC17(raw json.RawMessage) (bool, string) {
